@@ -330,6 +330,23 @@ def r10_4(ctx):
         c = ctx.fn(create)
         d = ctx.fn(destroy)
         allocated = {}
+        late = {}
+        # what other functions of the unit park in the object (a notebook created when a
+        # scan starts): destroy must release that too, the object can be destroyed after
+        # any prefix of its history
+        for g in (c.tu.fn_list if not ctx.fixture else []):
+            if g is c or g is d:
+                continue
+            for n in g.all_nodes():
+                if n['k'] == 'call' and (n.get('callee') or '').endswith('_create'):
+                    for a in g.call_args(n):
+                        a = cu.strip_casts(g, a)
+                        if a is not None and a['k'] == 'un' and a['op'] == '&':
+                            m = cu.strip_casts(g, g.kid(a, 0))
+                            if m is not None and m['k'] == 'member' and m.get('rec') in (rec, '_' + rec) and \
+                                    m.get('arrow'):
+                                allocated.setdefault(m['fld'], n)
+                                late[m['fld']] = g
         for n in c.all_nodes():
             if n['k'] == 'bin' and n['op'] == '=':
                 l = cu.strip_casts(c, c.kid(n, 0))
@@ -359,10 +376,13 @@ def r10_4(ctx):
         ctx.require(len(allocated) >= 3 or ctx.fixture, '%s: allocations not recognised' % create)
         for fld, n in sorted(allocated.items()):
             ok = fld in released
-            ctx.ob('R10.4', '%s:%s:released-by-%s' % (create, fld, destroy), ok, c.loc(n),
-                   '%s->%s allocated by %s is released by %s' % (rec, fld, create, destroy) if ok
-                   else '%s allocates %s but %s never passes it to a release function' % (
-                       create, fld, destroy))
+            who = late[fld].name if fld in late else create
+            wf = late[fld] if fld in late else c
+            ctx.ob('R10.4', '%s:%s:released-by-%s' % (who, fld, destroy), ok, wf.loc(n),
+                   '%s->%s allocated by %s is released by %s' % (rec, fld, who, destroy) if ok
+                   else '%s allocates %s but %s never passes it to a release function%s' % (
+                       who, fld, destroy, ': an object destroyed while it still holds one (a scan '
+                       'suspended and never resumed) leaks it' if fld in late else ''))
 
 
 def _pure_return(h):
@@ -479,7 +499,7 @@ def r10_5(ctx):
             continue
         k = {}
         for c in f.calls():
-            if c.get('callee') != 'memset':
+            if c.get('callee') not in ('memset', 'memcpy', 'memmove'):
                 continue
             a = f.call_args(c)
             d = cu.strip_casts(f, a[0])
@@ -492,12 +512,80 @@ def r10_5(ctx):
             idx = k.get(d['fld'], 0)
             k[d['fld']] = idx + 1
             ok = got == want
+            verb = 'cleared' if c['callee'] == 'memset' else 'filled'
             ctx.ob('R10.5', '%s:%s#%d:reset-covers-allocation' % (f.name, d['fld'], idx), ok, f.loc(c),
-                   'cleared over %s = the allocated extent' % ' * '.join(got) if ok else
-                   '%s is allocated with %s (at %s) but cleared over %s: part of it keeps the state of '
-                   'the previous scan (or the clear runs past the allocation)' % (
-                       d['fld'], ' * '.join(want), af.loc(an), ' * '.join(got)))
+                   '%s over %s = the allocated extent' % (verb, ' * '.join(got)) if ok else
+                   '%s is allocated with %s (at %s) but %s over %s: part of it keeps the state of '
+                   'the previous scan (or the write runs past the allocation)' % (
+                       d['fld'], ' * '.join(want), af.loc(an), verb, ' * '.join(got)))
     ctx.count('sized_resets', n_sites)
+
+
+def r10_6(ctx):
+    """settings survive a scan: a function other than the setters (and the creator) that
+    writes a setting of the scanner - callback, user data, flags, timeout - does so
+    temporarily: the value the field had is saved in a local beforehand and every path from
+    the first write to a return ends with the field assigned from that local.  Setting a bit
+    and clearing it afterwards is not a restore: the bit may have been set by the user."""
+    prog = ctx.prog
+    settings = set(k for k, v in SETTINGS.items() if v == 'setting') - set(['rules', 'canary'])
+    n_sites = 0
+    for f in prog.fns():
+        if f.file != 'libyara/scanner.c' and not ctx.fixture:
+            continue
+        if f.name.startswith('yr_scanner_set_') or f.name in ('yr_scanner_create',):
+            continue
+        writes = {}
+        for n in f.all_nodes():
+            if n['k'] == 'bin' and n['op'].endswith('=') and n['op'] not in ('==', '!=', '<=', '>='):
+                l = cu.strip_casts(f, f.kid(n, 0))
+                if l is not None and l['k'] == 'member' and l.get('rec') in (CTX, 'YR_SCANNER') and \
+                        l['fld'] in settings and l.get('arrow'):
+                    writes.setdefault(l['fld'], []).append(n)
+        for fld, ws in sorted(writes.items()):
+            n_sites += 1
+            wids = set(w['i'] for w in ws)
+            bad = []
+
+            def step(n, facts, fld=fld, wids=wids):
+                # a local that receives the field's value before any write
+                src = dst = None
+                if n['k'] == 'decl' and n.get('c'):
+                    dst, src = n['name'], cu.strip_casts(f, f.kid(n, 0))
+                elif n['k'] == 'bin' and n['op'] == '=':
+                    l = cu.strip_casts(f, f.kid(n, 0))
+                    if l is not None and l['k'] == 'ref':
+                        dst, src = l['name'], cu.strip_casts(f, f.kid(n, 1))
+                if dst and src is not None and src['k'] == 'member' and src['fld'] == fld and 'dirty' not in facts:
+                    return frozenset(x for x in facts if not (isinstance(x, tuple) and x[0] == 'saved')) | \
+                        {('saved', dst)}
+                if dst and any(isinstance(x, tuple) and x == ('saved', dst) for x in facts):
+                    return frozenset(x for x in facts if x != ('saved', dst))
+                if n['i'] in wids:
+                    r = cu.strip_casts(f, f.kid(n, 1))
+                    restores = n['op'] == '=' and r is not None and r['k'] == 'ref' and \
+                        ('saved', r['name']) in facts
+                    if restores:
+                        return facts - {'dirty'}
+                    if not any(isinstance(x, tuple) and x[0] == 'saved' for x in facts):
+                        bad.append((n, 'is written without its previous value having been saved'))
+                        return None
+                    return facts | {'dirty'}
+                if n['k'] == 'ret':
+                    if 'dirty' in facts:
+                        bad.append((n, 'is left modified at this return'))
+                    return None
+                return facts
+            try:
+                paths.explore(f, set(), step, None, max_states=128)
+            except paths.Budget as e:
+                ctx.require(False, 'R10.6: ' + str(e))
+            ctx.ob('R10.6', '%s:%s:restored' % (f.name, fld), not bad, f.loc(bad[0][0] if bad else ws[0]),
+                   '%s changes the setting `%s` only temporarily: the saved value is assigned back on '
+                   'every path' % (f.name, fld) if not bad else
+                   'the setting `%s` %s by %s: what the user configured with the setter does not survive '
+                   'this call, later scans with the same scanner behave differently' % (fld, bad[0][1], f.name))
+    ctx.count('temporary_setting_changes', n_sites)
 
 
 FIXTURES = {
@@ -519,4 +607,6 @@ def run(ctx):
     r10_4(ctx)
     ctx.floor('R10.4', 6)
     r10_5(ctx)
+    r10_6(ctx)
+    ctx.floor('R10.6', 1)
     ctx.floor('R10.5', 6)
